@@ -134,7 +134,7 @@ class Mon:
         return o
 
 
-ALLOW_LISTS_JWS = [None, ["HS256"], ["HS384"], ["RS256", "ES256"], ["none"], ["HS256", "none"], JWS_REG, JWS_REG + ["foo", "HS257"], ["foo"],
+ALLOW_LISTS_JWS = [None, [], ["HS256"], ["HS384"], ["RS256", "ES256"], ["none"], ["HS256", "none"], JWS_REG, JWS_REG + ["foo", "HS257"], ["foo"],
                    ["ES512", "EdDSA", "ES256K", "PS384"], ["hs256"], ["HS512", "RS384", "RS512", "ES384", "PS256", "PS512"]]
 
 
@@ -213,7 +213,7 @@ def jws_ops(mon: Mon, name, allow, mode, rng, forms=None):
         mon.run({**d0, "op": "verify", "form": "validate_compact"}, U, exp_c, vc, none_verify=nv)
 
 
-ALLOW_LISTS_JWE = [None, ["A128KW", "A128GCM"], ["dir", "A256GCM", "DEF"], ["RSA-OAEP", "A128CBC-HS256"], ["A192KW", "A192GCM", "DEF"],
+ALLOW_LISTS_JWE = [None, [], ["A128KW", "A128GCM"], ["dir", "A256GCM", "DEF"], ["RSA-OAEP", "A128CBC-HS256"], ["A192KW", "A192GCM", "DEF"],
                    JWE_ALG_REG + JWE_ENC_REG + ["DEF"], ["ECDH-ES", "A128GCM", "foo"], ["foo"], ["A128KW"], ["A128GCM"],
                    ["PBES2-HS256+A128KW", "A128GCMKW", "RSA1_5", "A256CBC-HS512", "DEF"], g.ALGS + g.ENCS + ["DEF"], ["ECDH-1PU", "C20P", "XC20P", "A128GCM"]]
 
